@@ -58,6 +58,8 @@ class Injector:
         self.calls = 0
         self.consulted = []  # submission numbers (pooled) in call order
         self.raised = []
+        self.raised_items = []
+        self.unattributed = 0
 
     def __call__(self):
         i = self.calls
@@ -69,9 +71,13 @@ class Injector:
             if cur is not None:
                 item = cur[1]
                 self.consulted.append(item)
-        if i in self.at_counts or (item is not None and item in self.at_items):
+        if item is None and sess is not None:
+            self.unattributed += 1  # consulted outside any pool task (e.g. by the submitting thread)
+        fire = i in self.at_counts or (item in self.at_items if item is not None else (sess is not None and i in self.at_items))
+        if fire:
             e = self.exc_cls("injected at invocation %d (sub-cube %r)" % (i, item))
             self.raised.append(e)
+            self.raised_items.append(item)
             raise e
 
 
@@ -86,7 +92,8 @@ class BudgetInjector(Injector):
         if sess is not None:
             cur = getattr(sess.current_task, "value", None)
             item = cur[1] if cur is not None else None
-        return 0 if (i in self.at_counts or (item is not None and item in self.at_items)) else 1
+        about_to = i in self.at_counts or (item in self.at_items if item is not None else (sess is not None and i in self.at_items))
+        return 0 if about_to else 1
 
 
 class NeverTrueInjector(Injector):
@@ -270,6 +277,7 @@ class Runner:
         layout = sess.map_layouts[0]
         if len(set(inj.consulted)) != len(inj.consulted):
             raise Violation(PROP, "subcube-consulted-twice", self.where, "consulted %r" % (sorted(inj.consulted),))
+        attributed = inj.unattributed == 0  # every consultation came from inside a pool task
         expected = set()
         for chunk in layout:
             for n in chunk:
@@ -280,7 +288,7 @@ class Runner:
             if res.exc is not None:
                 raise Violation(PROP, "raised-without-fault:" + type(res.exc).__name__, self.where,
                                 "no interrupt was injected but pooled calculate raised %r" % (res.exc,))
-            if sorted(inj.consulted) != list(range(k)) or inj.calls != k:
+            if inj.calls != k or (attributed and sorted(inj.consulted) != list(range(k))):
                 raise Violation(PROP, "callback-count", self.where,
                                 "callback consulted for sub-cubes %r (%d calls), expected each of %d once"
                                 % (sorted(inj.consulted), inj.calls, k))
@@ -289,13 +297,26 @@ class Runner:
                                 "pooled result with a never-raising callback differs: output%s"
                                 % cubes.first_difference(self.ref, res.out))
             return
+        if not inj.raised:
+            # the plan never fired (the faulty sub-cube was not consulted at all): judged as a fault-free run
+            if res.exc is not None:
+                raise Violation(PROP, "raised-without-fault:" + type(res.exc).__name__, self.where,
+                                "the injector raised nothing but pooled calculate raised %r" % (res.exc,))
+            if inj.calls != k:
+                raise Violation(PROP, "callback-count", self.where,
+                                "callback consulted %d times for %d sub-cubes (pooled; sub-cubes %r were never consulted)"
+                                % (inj.calls, k, sorted(set(at) - set(inj.consulted))))
+            return
         if res.exc is None:
             raise Violation(PROP, "interrupt-swallowed", self.where,
-                            "callback raised for sub-cubes %r but pooled calculate returned" % (sorted(at),))
+                            "callback raised %d time(s) (sub-cubes %r) but pooled calculate returned"
+                            % (len(inj.raised), inj.raised_items))
         if not any(res.exc is e for e in inj.raised):
             raise Violation(PROP, "wrong-exception:" + type(res.exc).__name__, self.where,
                             "pooled calculate raised %r, which the injector did not raise (%d injected)"
                             % (res.exc, len(inj.raised)))
+        if not attributed:
+            return  # consultations happened outside the tasks: per-chunk reach cannot be stated
         # a chunk must not go on past its own raise; stopping other chunks EARLIER is allowed
         if not set(inj.consulted) <= expected or inj.calls != len(inj.consulted):
             raise Violation(PROP, "continued-after-interrupt", self.where,
